@@ -101,6 +101,7 @@ def run_case(op, presented, pinned, url="gemini://h.example/secret?q=1", respons
 
         async def go():
             client = GeminiClient(timeout=0.5, tofu_db_path=dbpath, verify_ssl=verify_ssl)
+            store = client.tofu_db                    # the operator's handle on the trust store (trust / revoke / clear below)
             real_verify = client.tofu_db.verify
 
             def verify(host, port, c):
@@ -160,6 +161,7 @@ def run_history(steps, verify_ssl=False):
 
         async def go():
             client = GeminiClient(timeout=0.5, tofu_db_path=dbpath, verify_ssl=verify_ssl)
+            store = client.tofu_db                    # the operator's handle on the trust store (trust / revoke / clear below)
             real_verify = client.tofu_db.verify
 
             def verify(host, port, c):
@@ -182,16 +184,20 @@ def run_history(steps, verify_ssl=False):
             loop.create_connection = create_connection
             model = None
             for i, st in enumerate(steps):
+                if st[0] == "ctx":                  # the client used as an async context manager in the middle of its life
+                    async with client:
+                        pass
+                    continue
                 if st[0] == "trust":
-                    client.tofu_db.trust(key[0], key[1], cert(st[1])[0])
+                    store.trust(key[0], key[1], cert(st[1])[0])
                     model = fp(st[1])
                     continue
                 if st[0] == "revoke":
-                    client.tofu_db.revoke(*key)
+                    store.revoke(*key)
                     model = None
                     continue
                 if st[0] == "clear":
-                    client.tofu_db.clear()
+                    store.clear()
                     model = None
                     continue
                 state["presented"] = st[1]
@@ -247,6 +253,9 @@ HISTORIES = [
     [("upload", "A"), ("get", "B")],
     [("get", "A"), ("upload", "B")],
     [("trust", "B"), ("get", "A")],
+    [("get", "A"), ("ctx",), ("get", "B")],             # leaving an `async with client:` block does not switch pinning off
+    [("ctx",), ("trust", "A"), ("upload", "B")],
+    [("get", "A"), ("ctx",), ("ctx",), ("get", "A"), ("upload", "B")],
     [("get", "A"), ("get", "B"), ("get", "A"), ("trust", "B"), ("get", "B"), ("get", "A")],
 ]
 
